@@ -75,6 +75,9 @@ type Run struct {
 	violCount   map[string]int64
 	inconcl     []string
 	minDistinct int64
+
+	raceScope       []string
+	incidentalRaces []string
 }
 
 var (
@@ -399,6 +402,9 @@ func (r *Run) Finish() {
 		kh[k] = v
 	}
 	cov["known_findings_hit"] = kh
+	if len(r.incidentalRaces) > 0 {
+		cov["incidental_races_not_judged"] = r.incidentalRaces
+	}
 	vs := map[string]int64{}
 	for k, v := range r.violCount {
 		vs[k] = v
